@@ -342,6 +342,9 @@ def r194(db, ctx, F):
         if 'MatrixCoordinates' in suffix:
             # self[row][col] through the matrix's own Index<usize> / IndexMut<usize> (checked above: the C logical cells of data[row])
             alt = ('idx', ('call~', ('Index::index', 'IndexMut::index_mut'), (('p', 1), ('fld', ('p', 2), 'row'))), ('fld', ('p', 2), 'col'))
+        if alt is None:
+            # through the iterator's own projection (Iter::get / IterMut::get = .a.as_slice(), checked below)
+            alt = ('call~', ('Iter::get', 'IterMut::get'), (('call~', ('Index::index', 'IndexMut::index_mut'), (('fld', ('p', 1), F['data']), ('p', 2))),))
         if e is not None and (m(pat, norm(e)) is not None or (alt is not None and m(alt, norm(e)) is not None)):
             n += 1
             ctx.ok('R19.4', f, 'accessor returns the addressed logical cell(s)', [X.show(e)])
@@ -366,13 +369,34 @@ def r194(db, ctx, F):
                     ctx.fail('R19.4', base, meth, f'reason=anchor-missing: {len(fs)} bodies')
                     continue
                 f = fs[0]
-                e = norm(common.return_expr_single_path_allow(f))
+                e = common.return_expr_single_path_allow(f)
+                e = norm(e) if e is not None else None
                 inner_call = ('call~', inner, (('fld', ('p', 1), 'it'),))
                 if meth.endswith('len'):
                     ok = m(inner_call, e) is not None
                 else:
-                    b = m(('call~', 'Option::map', (inner_call, '$clo')), e)
+                    b = m(('call~', 'Option::map', (inner_call, '$clo')), e) if e is not None else None
                     ok = False
+                    if b is None:
+                        # the same mapping written as a match: Some(row) => Some(Self::get(row)), None => None
+                        Rf_ = X.Rec(f)
+                        ds_ = f.defs().get(0, [])
+                        vals_ = []
+                        for bi_, si_, x_ in ds_:
+                            try:
+                                vals_.append(norm(Rf_.at(bi_).call(x_) if si_ == 'term' else Rf_.at(bi_).rvalue(x_)))
+                            except Exception:
+                                vals_.append(None)
+                        is_opt = lambda v_: v_ is not None and v_[0] == 'agg' and isinstance(v_[1], tuple) and v_[1][0] == 'adt' and v_[1][1].endswith('option::Option')
+                        somes_ = [v_ for v_ in vals_ if is_opt(v_) and len(v_[2]) == 1]
+                        nones_ = [v_ for v_ in vals_ if is_opt(v_) and len(v_[2]) == 0]
+                        if len(vals_) == 2 and len(somes_) == 1 and len(nones_) == 1:
+                            pl = norm(somes_[0][2][0])
+                            bb = m(('call', f'{base}::get', (('fld', ('down', '$n', 'Some'), '0'),)), pl) if pl[0] == 'call' and len(pl) >= 3 else None
+                            if pl[0] == 'call' and pl[1] == f'{base}::get' and len(pl[2]) == 1:
+                                a_ = norm(pl[2][0])
+                                if a_[0] == 'fld' and a_[1][0] == 'down' and a_[1][2] == 'Some' and str(a_[2]) == '0' and m(inner_call, norm(a_[1][1])) is not None:
+                                    ok = True
                     if b and b['$clo'][0] == 'agg':
                         clo = [c for c in db.closures_of(f)]
                         if len(clo) == 1:
